@@ -108,6 +108,28 @@ def run(chk, tier, seed):
     res = vf.run_jobs(sweep_jobs, "c09-sweep", timeout_ms=120000)
     chk.count(len(base_jobs) + len(sweep_jobs))
 
+    # (2a') host histories on one runtime: run, reset the call budget, run again, reset the timeout, run - resets
+    # may not touch the accounting, and dropping everything afterwards brings it back to zero
+    hist_jobs = []
+    for p in ps:
+        lim = dict(p["limits"])
+        lim["size"] = BIG
+        lim.setdefault("calls", 10 ** 9)
+        j = {"id": "%s@hist" % p["name"], "src": p["src"], "limits": lim, "perms": p["perms"], "trace": True, "observe": [],
+             "calls": [{"op": "run", "fn": "main"}, {"op": "reset_calls"}, {"op": "run", "fn": "main"}, {"op": "reset_timeout"}, {"op": "run", "fn": "main"}]}
+        if p.get("now") is not None:
+            j["now"] = p["now"]
+        hist_jobs.append(j)
+    if tier == "quick":
+        hist_jobs = hist_jobs[:12] + hist_jobs[12::3]
+    hres = vf.run_jobs(hist_jobs, "c09-hist", timeout_ms=120000)
+    chk.count(len(hist_jobs))
+    vf.validate_job_traces(chk, hist_jobs, hres, "c09-hist", "run / reset history")
+    for j in hist_jobs:
+        o = hres[j["id"]]
+        if vf.job_outcome(o) in ("crash", "timeout") or vf.job_outcome(o).endswith("panic") or "drop_panic" in o:
+            chk.violation("run / reset history ended in %s %s" % (vf.job_outcome(o), str(o.get("drop_panic", ""))[:200]),
+                          {"kind": "trace", "job": j, "observation": {k: v for k, v in o.items() if k != "events"}})
     # (2b) every trace is validated by the specification
     vf.validate_job_traces(chk, base_jobs, base, "c09-base", "unlimited run")
     vf.validate_job_traces(chk, sweep_jobs, res, "c09-sweep", "size-limited run")
